@@ -1,12 +1,14 @@
 """digest.py — wrap-around polynomial hash over a flat integer trace; the same function exists in Coq
 (theories/Digest.v, primitive 63-bit integers).  selftest compares both on fixed vectors."""
-M = 2 ** 63
-MULT = 6364136223846793005 % M
+MASK = 2 ** 61 - 1
+MULT = 1000003
+INC = 1442695040888963407
+H0 = 1469598103934665603
 
 
-def digest(xs, h=1469598103934665603 % M):
+def digest(xs, h=H0):
     for x in xs:
-        h = ((h * MULT) + (x % M) + 1442695040888963407) % M
+        h = (MULT * h + (x & MASK) + INC) & MASK
     return h
 
 
